@@ -255,6 +255,8 @@ type Reply struct {
 	// FlushAfterHeader calls Flush right after WriteHeader, before any body byte (what a
 	// streaming-minded handler or a reverse proxy with FlushInterval does).
 	FlushAfterHeader bool
+	// PrefixTrailersEarly sets the http.TrailerPrefix keys before WriteHeader instead of after the body.
+	PrefixTrailersEarly bool
 }
 
 // Backend is a scripted http.Handler that records what it saw.
@@ -329,6 +331,12 @@ func WriteReply(w http.ResponseWriter, rep *Reply, errs *[]string) {
 			}
 		}
 	}
+	if rep.PrefixTrailersEarly && !rep.DeclaredTrailers {
+		// (net/http: keys with TrailerPrefix may be set before or after WriteHeader)
+		for k, v := range out.Trailer {
+			h[http.TrailerPrefix+k] = append([]string(nil), v...)
+		}
+	}
 	w.WriteHeader(out.Status)
 	if rep.FlushAfterHeader {
 		if fl, ok := w.(http.Flusher); ok {
@@ -381,7 +389,7 @@ func WriteReply(w http.ResponseWriter, rep *Reply, errs *[]string) {
 	for k, v := range out.Trailer {
 		if rep.DeclaredTrailers {
 			h[k] = append([]string(nil), v...)
-		} else {
+		} else if !rep.PrefixTrailersEarly {
 			h[http.TrailerPrefix+k] = append([]string(nil), v...)
 		}
 	}
